@@ -1,10 +1,14 @@
 (* C15 — MPEG-4 AudioSpecificConfig (ISO/IEC 14496-3, 1.6.2.1).
    [asc_bits]   : the encoder, transcribed from the syntax table for the audio
                   object types whose specific configuration is modelled:
-                  AAC main/LC/SSR/LTP (GASpecificConfig) and Layer-1/2/3
-                  (MPEG_1_2_SpecificConfig, reached through the AOT escape), alone, with
-                  hierarchical SBR / PS signalling (AOT 5 / 29) or with the
-                  backward-compatible sync extension 0x2b7 (+ 0x548 for PS).
+                  AAC main/LC/SSR/LTP (GASpecificConfig, with a program_config_element kept
+                  as opaque bits when channelConfiguration = 0), Layer-1/2/3
+                  (MPEG_1_2_SpecificConfig), ALS (AOT 36: fillBits and ALSSpecificConfig with
+                  als_id, samp_freq, samples, channels field by field, the rest opaque) and
+                  every other object type 1..95 with its specific configuration as opaque
+                  bits (the parser reads none of it); alone, with hierarchical SBR / PS
+                  signalling (AOT 5 / 29) or with the backward-compatible sync extension
+                  0x2b7 (+ 0x548 for PS).
    [spec_rate], [spec_channels] : the standard's output sampling frequency and
                   channel count (Table 1.19).
    [go_asc]     : av/codec/aac/asc.go AudioSpecificConfig.Decode + the selection in
@@ -29,6 +33,12 @@ Definition ka_sbr_flag := K 10 0.  (* sbrPresentFlag in the sync extension *)
 Definition ka_ps_sync := K 11 0.   (* 0x548 extension present *)
 Definition ka_ps_flag := K 12 0.
 
+Definition ka_plen := K 13 0.       (* number of opaque specific-config bits *)
+Definition ka_pbit (i : Z) := K 14 i.
+Definition ka_als_freq := K 15 0.   (* ALSSpecificConfig.samp_freq *)
+Definition ka_als_samples := K 16 0.
+Definition ka_als_chan := K 17 0.   (* ALSSpecificConfig.channels = number of channels - 1 *)
+
 Definition bit_of (v : Z) : bool := negb (v =? 0).
 
 (* GetAudioObjectType *)
@@ -42,15 +52,29 @@ Definition is_layer (aot : Z) : bool := (32 <=? aot) && (aot <=? 34).
 Definition sfi_ok (i : Z) : bool := ((0 <=? i) && (i <=? 12)) || (i =? 15).
 Definition flag_ok (v : Z) : bool := (v =? 0) || (v =? 1).
 
-Definition asc_wf (e : env) : bool :=
-  (is_ga (get e ka_aot) || (is_layer (get e ka_aot) && (get e ka_hier =? 0))) &&
-  (0 <=? get e ka_hier) && (get e ka_hier <=? 2) &&
-  sfi_ok (get e ka_sfi) && (0 <=? get e ka_sf) && (get e ka_sf <? 2 ^ 24) &&
-  (1 <=? get e ka_chan) && (get e ka_chan <=? 7) &&
-  flag_ok (get e ka_flen) &&
-  sfi_ok (get e ka_ext_sfi) && (0 <? get e ka_ext_sf) && (get e ka_ext_sf <? 2 ^ 24) &&
-  flag_ok (get e ka_sync) && flag_ok (get e ka_sbr_flag) && flag_ok (get e ka_ps_sync) &&
-  flag_ok (get e ka_ps_flag).
+Definition is_als (aot : Z) : bool := aot =? 36.
+Definition ALS_ID : Z := 1095521024.     (* 'A' 'L' 'S' 0 *)
+
+(* specific-config bits the parser does not read, taken from the record as they are *)
+Definition opaque (e : env) : bits :=
+  map (fun i => bit_of (get e (ka_pbit (Z.of_nat i)))) (seq 0 (Z.to_nat (get e ka_plen))).
+
+(* the part of the specific configuration the parser reads: AOT 36 only —
+   fillBits(5), then ALSSpecificConfig: als_id, samp_freq, samples, channels *)
+Definition spec_read (e : env) : bits :=
+  if is_als (get e ka_aot)
+  then ubits 5 0 ++ ubits 32 ALS_ID ++ ubits 32 (get e ka_als_freq) ++
+       ubits 32 (get e ka_als_samples) ++ ubits 16 (get e ka_als_chan)
+  else [].
+(* the part it does not read.  GASpecificConfig: frameLengthFlag, dependsOnCoreCoder = 0,
+   extensionFlag = 0 [, program_config_element when channelConfiguration = 0];
+   MPEG_1_2_SpecificConfig: extension = 0; ALS: file_type .. trailer_size, orig_header ..;
+   any other object type: its whole specific configuration *)
+Definition spec_rest (e : env) : bits :=
+  let aot := get e ka_aot in
+  if is_ga aot then [bit_of (get e ka_flen); false; false] ++ (if get e ka_chan =? 0 then opaque e else [])
+  else if is_layer aot then [false]
+  else opaque e.
 
 Definition asc_bits (e : env) : bits :=
   let aot := get e ka_aot in
@@ -60,9 +84,7 @@ Definition asc_bits (e : env) : bits :=
   ubits 4 (get e ka_chan) ++
   (if hier =? 0 then []
    else rate_bits (get e ka_ext_sfi) (get e ka_ext_sf) ++ aot_bits aot) ++
-  (* GASpecificConfig: frameLengthFlag, dependsOnCoreCoder = 0, extensionFlag = 0;
-     MPEG_1_2_SpecificConfig: extension = 0 *)
-  (if is_ga aot then [bit_of (get e ka_flen); false; false] else [false]) ++
+  spec_read e ++ spec_rest e ++
   (if (hier =? 0) && (get e ka_sync =? 1)
    then ubits 11 695 (* 0x2b7 *) ++ aot_bits 5 ++ [bit_of (get e ka_sbr_flag)] ++
         (if get e ka_sbr_flag =? 1
@@ -85,10 +107,15 @@ Definition channels_of (c : Z) : Z := nth (Z.to_nat c) [0; 1; 2; 3; 4; 5; 6; 8] 
 (* with explicit SBR signalling the output rate is the extension sampling frequency *)
 Definition spec_sbr_explicit (e : env) : bool :=
   negb (get e ka_hier =? 0) || ((get e ka_sync =? 1) && (get e ka_sbr_flag =? 1)).
+(* ALS carries its own sampling frequency and channel count (channels + 1); otherwise Table 1.18
+   or the 24-bit explicit frequency, and Table 1.19 of channelConfiguration (0 = defined by the
+   program_config_element, which the parameter parser is not asked to read: it reports 0) *)
 Definition spec_rate (e : env) : Z :=
-  if spec_sbr_explicit e then rate_of (get e ka_ext_sfi) (get e ka_ext_sf)
+  if is_als (get e ka_aot) then get e ka_als_freq
+  else if spec_sbr_explicit e then rate_of (get e ka_ext_sfi) (get e ka_ext_sf)
   else rate_of (get e ka_sfi) (get e ka_sf).
-Definition spec_channels (e : env) : Z := channels_of (get e ka_chan).
+Definition spec_channels (e : env) : Z :=
+  if is_als (get e ka_aot) then get e ka_als_chan + 1 else channels_of (get e ka_chan).
 
 (* ------------------------------------------------------------ the Go decoder *)
 Definition go_get_aot (bs : bits) : option (Z * bits) :=
@@ -281,6 +308,59 @@ Definition go_asc_with (ps_take : bits -> option bool) (data : list Z) : option 
 
 Definition go_asc := go_asc_with ps_take_fixed.
 
+(* ------------------------------------------------------------ well-formed records *)
+Definition SYNC : bits := [false; true; false; true; false; true; true; false; true; true; true].
+
+(* the decoder looks for the sync word 0x2b7 at every bit offset of what follows the part it
+   has read (FFmpeg's heuristic), the standard places it right after the specific
+   configuration: the two agree when no earlier window of the unread bits spells 0x2b7 *)
+Fixpoint clean (p : bits) : bool :=
+  match p with
+  | [] => true
+  | _ :: q =>
+    match go_peek 11 (p ++ SYNC) with Some w => negb (w =? 695) | None => false end && clean q
+  end.
+(* without a sync extension: no window of the unread bits (padding included) spells it *)
+Fixpoint scan_hits (bs : bits) : bool :=
+  if 15 <? bits_left bs then
+    match go_peek 11 bs with
+    | None => true
+    | Some w => if w =? 695 then true else match bs with [] => false | _ :: r => scan_hits r end
+    end
+  else false.
+
+Definition asc_pad (e : env) : bits :=
+  repeat false (Z.to_nat ((- Z.of_nat (length (asc_bits e))) mod 8)).
+Definition payload_ok (e : env) : bool :=
+  if get e ka_hier =? 0 then
+    if get e ka_sync =? 1 then clean (spec_rest e) else negb (scan_hits (spec_rest e ++ asc_pad e))
+  else true.
+
+(* object types: 1..95 except 31 (the escape code), 5 and 29 (the hierarchical signalling itself) *)
+Definition core_ok (aot : Z) : bool :=
+  (((1 <=? aot) && (aot <=? 30)) || ((32 <=? aot) && (aot <=? 95))) &&
+  negb (aot =? 5) && negb (aot =? 29).
+
+(* [maxch]: largest ALS channels field; the decoder keeps the count in a uint8 *)
+Definition asc_wf_gen (maxch : Z) (e : env) : bool :=
+  (if get e ka_hier =? 0 then core_ok (get e ka_aot) else is_ga (get e ka_aot)) &&
+  (0 <=? get e ka_hier) && (get e ka_hier <=? 2) &&
+  sfi_ok (get e ka_sfi) && (0 <=? get e ka_sf) && (get e ka_sf <? 2 ^ 24) &&
+  (0 <=? get e ka_chan) && (get e ka_chan <=? 7) &&
+  flag_ok (get e ka_flen) &&
+  sfi_ok (get e ka_ext_sfi) && (0 <? get e ka_ext_sf) && (get e ka_ext_sf <? 2 ^ 24) &&
+  flag_ok (get e ka_sync) && flag_ok (get e ka_sbr_flag) && flag_ok (get e ka_ps_sync) &&
+  flag_ok (get e ka_ps_flag) &&
+  (0 <=? get e ka_plen) &&
+  (if is_als (get e ka_aot)
+   then (get e ka_sync =? 0) && (128 <=? get e ka_plen) &&       (* file_type .. RLSLMS/aux flags, header_size, trailer_size *)
+        (0 <? get e ka_als_freq) && (get e ka_als_freq <? 2 ^ 32) &&
+        (0 <=? get e ka_als_samples) && (get e ka_als_samples <? 2 ^ 32) &&
+        (0 <=? get e ka_als_chan) && (get e ka_als_chan <=? maxch)
+   else true) &&
+  payload_ok e.
+Definition asc_wf := asc_wf_gen 254.
+
 Definition aobs := option (Z * Z).
 Definition aobs_eqb (x y : aobs) : bool :=
   match x, y with
@@ -294,6 +374,9 @@ Fixpoint zl_eqb (x y : list Z) : bool :=
   | a :: x', b :: y' => (a =? b) && zl_eqb x' y'
   | _, _ => false
   end.
-Definition ok_asc (e : env) (data : list Z) (o : aobs) : bool :=
-  if asc_wf e && zl_eqb data (asc_bytes e)
+Definition ok_asc_gen (maxch : Z) (e : env) (data : list Z) (o : aobs) : bool :=
+  if asc_wf_gen maxch e && zl_eqb data (asc_bytes e)
   then aobs_eqb o (Some (spec_rate e, spec_channels e)) else true.
+Definition ok_asc := ok_asc_gen 254.
+(* every ALS channel count the format can carry (known finding: the decoder wraps at 256) *)
+Definition ok_asc_wide := ok_asc_gen 65535.
